@@ -146,7 +146,7 @@ var c06Fixed = []string{
 func c06Run(w *W, idx int) {
 	r := w.Rand(idx)
 	inputsPerCase := 60
-	kind := idx % 13
+	kind := idx % 14
 	if w.Thorough() && idx%200 == 199 {
 		c06Huge(w, r, idx)
 		return
@@ -191,6 +191,24 @@ func c06Run(w *W, idx int) {
 			src = fragmentSoup(r)
 			infix = true
 			stratum = "soup-infix"
+		case 13:
+			// short sequences over a compact infix alphabet: stray operands, operand-less operators, calls, commas
+			stratum = "infix-token-soup"
+			infix = true
+			alpha := []string{"1", "2", "a", "b", "true", "+", "-", "*", "/", "!", "==", "!=", "<", "&&", "||", "sub", "add", "f", "cz", "if", "(", ")", "(", ")", ",", "[", "]", "\"s\""}
+			if r.Intn(2) == 0 {
+				n := 1 + r.Intn(9)
+				parts := make([]string, n)
+				for i := range parts {
+					parts[i] = alpha[r.Intn(len(alpha))]
+				}
+				src = strings.Join(parts, " ")
+				if r.Intn(3) == 0 {
+					src = strings.ReplaceAll(src, " (", "(")
+				}
+			} else {
+				src = nearInfix(r, 3)
+			}
 		case 12:
 			// valid wide programs: nested same-kind and/or groups whose flattened operand count is around the 127 limit
 			stratum = "wide-andor-groups"
@@ -521,7 +539,7 @@ func c06Floors(m *Merged, tier string) []string {
 	if m.C("rejected")*10 < in {
 		unmet = append(unmet, fmt.Sprintf("only %d of %d inputs are rejected (<10%%)", m.C("rejected"), in))
 	}
-	for _, c := range []string{"mut_truncate", "mut_delete", "mut_insert", "mut_replace", "mut_duplicate", "mut_swap", "mut_edge", "inputs_fixed", "inputs_deep", "inputs_soup-infix", "inputs_containers-in-scalar-positions", "inputs_wide-andor-groups", "stock_fetcher_calls", "loop_events", "compiled_after_mutation"} {
+	for _, c := range []string{"mut_truncate", "mut_delete", "mut_insert", "mut_replace", "mut_duplicate", "mut_swap", "mut_edge", "inputs_fixed", "inputs_deep", "inputs_soup-infix", "inputs_containers-in-scalar-positions", "inputs_wide-andor-groups", "inputs_infix-token-soup", "stock_fetcher_calls", "loop_events", "compiled_after_mutation"} {
 		if m.C(c) == 0 {
 			unmet = append(unmet, c+" = 0")
 		}
@@ -630,4 +648,41 @@ func wideAndOrGroups(r *rand.Rand) *Node {
 		tree = Op("=", TBool, tree, Var("b0", TBool))
 	}
 	return tree
+}
+
+// nearInfix: a stochastic grammar of almost-valid infix text: sequences of operands, operators (possibly without
+// operands), calls (possibly with empty or operator-only arguments) and parenthesised groups.
+func nearInfix(r *rand.Rand, depth int) string {
+	operands := []string{"1", "2", "a", "b", "true", "-3", "\"s\"", "[1 2]"}
+	operators := []string{"+", "-", "*", "/", "%", "!", "==", "!=", "<", ">=", "&&", "||", "&", "|"}
+	names := []string{"sub", "add", "f", "cz", "if", "max", "not", "in", "and"}
+	var seq func(d int) string
+	seq = func(d int) string {
+		n := r.Intn(4)
+		if d == depth {
+			n = 1 + r.Intn(4)
+		}
+		parts := make([]string, 0, n)
+		for i := 0; i < n; i++ {
+			switch k := r.Intn(10); {
+			case k < 4:
+				parts = append(parts, operands[r.Intn(len(operands))])
+			case k < 7:
+				parts = append(parts, operators[r.Intn(len(operators))])
+			case k < 9 && d > 0:
+				na := r.Intn(3)
+				args := make([]string, na)
+				for j := range args {
+					args[j] = seq(d - 1)
+				}
+				parts = append(parts, names[r.Intn(len(names))]+"("+strings.Join(args, ", ")+")")
+			case d > 0:
+				parts = append(parts, "("+seq(d-1)+")")
+			default:
+				parts = append(parts, operands[r.Intn(len(operands))])
+			}
+		}
+		return strings.Join(parts, " ")
+	}
+	return seq(depth)
 }
